@@ -658,6 +658,28 @@ def call_c13(case):
     return res
 
 
+def call_c13_tpl(case):
+    """two parsers with try_previous_locales=True in one process: what the first one remembered must stay its own.
+    case: {a: {kw, s}, b: {kw, s}, settings} -> outcome of b's parser after a's, and b's outcome without the option"""
+    from dateparser.date import DateDataParser
+    st = decode_settings(case.get("settings") or {})
+    res = {"exc": ""}
+    try:
+        res["single"] = _ddp_outcome(case["b"]["s"], dict(st), **case["b"]["kw"])
+        pa = DateDataParser(settings=dict(st), try_previous_locales=True, **case["a"]["kw"])
+        for s_ in case["a"]["s"]:
+            pa.get_date_data(s_)
+        pb = DateDataParser(settings=dict(st), try_previous_locales=True, **case["b"]["kw"])
+        dd = pb.get_date_data(case["b"]["s"])
+        d = dd["date_obj"]
+        res["out"] = {"loc": "", "res": []} if d is None else {"loc": dd["locale"] or "", "res": [dt_to_list(d.replace(tzinfo=None)), dd["period"] or ""]}
+    except BaseException as e:  # noqa
+        res["exc"] = type(e).__name__
+        res.setdefault("single", {"loc": "", "res": []})
+        res.setdefault("out", {"loc": "", "res": []})
+    return res
+
+
 # --------------------------------------------------------------------------- C18: rewritings of one string
 def _cls(s):
     import unicodedata
@@ -731,6 +753,11 @@ def call_search(case):
     from dateparser.search import search_dates
     st = decode_settings(case.get("settings"))
     res = {"exc": "", "isnone": False, "islist": False, "hits": []}
+    for t_ in case.get("pre") or []:      # earlier searches of the same process (not judged here)
+        try:
+            search_dates(t_, languages=case.get("languages"), settings=decode_settings(case.get("settings")))
+        except Exception:  # noqa
+            pass
     try:
         r = search_dates(case["text"], languages=case.get("languages"), settings=st, add_detected_language=bool(case.get("withlang")))
     except BaseException as e:  # noqa
